@@ -769,6 +769,12 @@ def check(run: Run, prog: Program):
                                 f"`{hit[0]}` by reference and {f.qualname} edits it in "
                                 f"place ({m.how}) without documenting it: the caller's "
                                 f"data changes behind its back")
+    # --- P4: conditionally recomputed memos (a query must not leave a stale
+    #          memo behind that a later query reuses)
+    from .rules_c01 import CacheModel, _k4_cond_recompute
+    run.rule("P4", "state recomputed only under a guard test is refreshed by every "
+             "writer of what it derives from (no query reuses a stale memo)")
+    _k4_cond_recompute(run, prog, CacheModel(prog), rule="P4")
     run.units = {"functions": len(an.fa),
                  "mutation_sites": sum(len(fa.mutations) for fa in an.fa.values()),
                  "memoised_bindings_checked": n_cached_bind,
